@@ -2045,16 +2045,25 @@ def product_candidates(tier):
                 add(f"{op}{n}", [x], _u(op, L[x], n=n))
         add("mark_bytes", [x], _u("mark_bytes", L[x], set=[98], m=3))
         add("replace_markers", [x], _u("replace_markers", L[x], map=[[0, 1], [2, 0]]))
+    # quick tier: the blank-inserting and the bounded-repetition variants of the binary combinators run on
+    # the ordered pairs of the smaller leaf set; their plain counterparts on all ordered pairs of `red`
+    small = set(TRIPLE) if tier == "quick" else set(red)
     for x in red:
         for y in red:
+            both_small = x in small and y in small
             for op in BINARY_OPS:
+                if op.startswith("spaced") and not both_small:
+                    continue
                 add(op, [x, y], _bin(op, L[x], L[y]))
             for op in SEP_OPS:
+                if op.startswith("spaced") and not both_small:
+                    continue
                 add(op, [x, y], _u(op, L[x], sep=L[y]))
-            for op in SEP_N_OPS:
-                add(f"{op}2", [x, y], _u(op, L[x], n=2, sep=L[y]))
+            if both_small:
+                for op in SEP_N_OPS:
+                    add(f"{op}2", [x, y], _u(op, L[x], n=2, sep=L[y]))
+                add("spaced_delimited", [x, y], {"op": "spaced_delimited", "x": L[x], "open": L[y], "close": L[y]})
             add("delimited", [x, y], {"op": "delimited", "x": L[x], "open": L[y], "close": L[y]})
-            add("spaced_delimited", [x, y], {"op": "spaced_delimited", "x": L[x], "open": L[y], "close": L[y]})
     for x in tri:
         for y in tri:
             for z in tri:
